@@ -1,7 +1,7 @@
 """C11 ADEV value and gradient estimators are unbiased (structural clauses, DESIGN §4-C11)."""
-from . import adevr, c13
+from . import adevr, adevi, c13
 
 EXPLANATION = ("Continuation-protocol agreement over all 9 prim_jvp_estimate implementations, polynomial comparison of the REINFORCE / enumeration / "
                "measure-valued tangent forms, reparameterisation transforms with parameter-independent noise, CPS interpreter roles, custom-JVP bridge.")
-RULES = [adevr.kont_protocol, adevr.reinforce_rule, adevr.flip_enum_rule, adevr.flip_mvd_rule, adevr.lane_rb_rule, adevr.reparam_rule, adevr.interpreter_rule, c13.adev_param_agreement]
+RULES = [adevr.kont_protocol, adevr.reinforce_rule, adevr.flip_enum_rule, adevr.flip_mvd_rule, adevr.lane_rb_rule, adevr.reparam_rule, adevi.interpreter_rule, adevi.dual_helpers_rule, c13.adev_param_agreement]
 FLOOR = 18
